@@ -28,6 +28,8 @@ struct Behaviour {
     id: String,
     cfg: SpecCfg,
     ops: Vec<Vec<String>>,
+    /// (replays) run only this burst of failing fsyncs: [first, length]
+    burst: Option<(u64, u32)>,
 }
 
 fn arg_val(args: &[String], name: &str) -> Option<String> {
@@ -334,12 +336,33 @@ fn op_event(ev: &str, op: &[String]) -> Value {
 
 /// crash / power: run once with recording, then probe every boundary.
 fn run_crash(b: &Behaviour, names: &Names, power: bool, max_points: usize, rng: &mut Rng, out: &mut TraceOut, pend: &Pending) -> (u64, u64) {
+    if let Some(bu) = b.burst {
+        // a replay of one particular run with failing fsyncs
+        let (c, p, _) = run_crash_with(b, names, power, max_points, Some(bu), rng, out, pend);
+        return (c, p);
+    }
     let (mut calls, mut probes, nfsync) = run_crash_with(b, names, power, max_points, None, rng, out, pend);
     if power && nfsync > 0 {
-        // power loss meets a device that keeps refusing to sync: the fsync at a seeded position and the
-        // two after it fail.  Whatever the store does about that, what it acknowledges must be durable.
+        // power loss meets a device that refuses to sync: the fsync at a seeded position and up to two after it
+        // fail (a burst of one, two or three).  Whatever the store does about that, what it acknowledges must be durable.
         let first = rng.below(nfsync);
-        let (c, p, _) = run_crash_with(b, names, power, max_points.min(60), Some(first), rng, out, pend);
+        let len = 1 + rng.below(3) as u32;
+        let (c, p, _) = run_crash_with(b, names, power, max_points.min(60), Some((first, len)), rng, out, pend);
+        calls += c;
+        probes += p;
+    }
+    if power && rng.below(3) == 0 {
+        // a chain of merge passes behind the behaviour, the first of them meeting a short burst of failing fsyncs:
+        // what a failed merge leaves behind (outputs that were never forced to disk, entries already re-pointed
+        // into them) meets the next merges, one of which may fail too, and then the power fails
+        let mut ext = b.clone();
+        for _ in 0..3 {
+            ext.ops.push(vec!["merge".to_string()]);
+        }
+        ext.id = format!("{}+chain", b.id);
+        let first = nfsync + rng.below(3);
+        let len = 1 + rng.below(2) as u32;
+        let (c, p, _) = run_crash_with(&ext, names, power, max_points.min(80), Some((first, len)), rng, out, pend);
         calls += c;
         probes += p;
     }
@@ -347,7 +370,7 @@ fn run_crash(b: &Behaviour, names: &Names, power: bool, max_points: usize, rng: 
 }
 
 #[allow(clippy::too_many_arguments)]
-fn run_crash_with(b: &Behaviour, names: &Names, power: bool, max_points: usize, burst: Option<u64>, rng: &mut Rng, out: &mut TraceOut,
+fn run_crash_with(b: &Behaviour, names: &Names, power: bool, max_points: usize, burst: Option<(u64, u32)>, rng: &mut Rng, out: &mut TraceOut,
                   pend: &Pending) -> (u64, u64, u64) {
     shim::set_clock_skew(0);
     let sc = Scratch::new("fs");
@@ -355,11 +378,11 @@ fn run_crash_with(b: &Behaviour, names: &Names, power: bool, max_points: usize, 
     let knobs = Knobs { concurrency: 1, cache: 4 };
     shim::start(&dir, true);
     shim::set_skip_fsync(true);
-    if let Some(first) = burst {
-        shim::fail_fsync_burst(first, 3, libc::ENOSPC);
+    if let Some((first, len)) = burst {
+        shim::fail_fsync_burst(first, len, libc::ENOSPC);
     }
     let mode = if burst.is_some() { "powerfault" } else if power { "power" } else { "crash" };
-    let run_id = match burst { Some(f) => format!("{}#burst{}", b.id, f), None => b.id.clone() };
+    let run_id = match burst { Some((f, l)) => format!("{}#burst{}x{}", b.id, f, l), None => b.id.clone() };
     pend.set(&json!({"ev": "reset", "run": b.id, "phase": "op"}));
     let mut kv = match open_store(&dir, &b.cfg, knobs) {
         Ok(kv) => Some(kv),
@@ -408,7 +431,7 @@ fn run_crash_with(b: &Behaviour, names: &Names, power: bool, max_points: usize, 
     pend.clear();
 
     // emit in program order with a probe after every call that changed the directory
-    out.emit(&json!({"ev": "reset", "run": run_id, "cfg": b.cfg, "res": "ok", "mode": mode, "ops": b.ops, "burst": burst.map(|x| x as i64).unwrap_or(-1)}));
+    out.emit(&json!({"ev": "reset", "run": run_id, "cfg": b.cfg, "res": "ok", "mode": mode, "ops": b.ops, "burst": burst.map(|x| json!([x.0, x.1])).unwrap_or(json!([]))}));
     let nfsync: u64 = steps.iter().map(|s| s.1.iter().filter(|c| c.kind == "fsync").count() as u64).sum();
     let total_mut: usize = steps.iter().map(|s| s.1.iter().filter(|c| c.mutating()).count()).sum();
     // when there are more boundaries than the budget, probe a random subset (always the first few)
@@ -680,6 +703,7 @@ fn main() {
             id: v.get("id").and_then(|x| x.as_str()).map(String::from).unwrap_or_else(|| format!("b{i}")),
             cfg: serde_json::from_value(v["cfg"].clone()).expect("cfg"),
             ops,
+            burst: v.get("burst").and_then(|x| x.as_array()).filter(|a| a.len() == 2).map(|a| (a[0].as_u64().unwrap_or(0), a[1].as_u64().unwrap_or(1) as u32)),
         });
     }
     let prefix = PathBuf::from(&args[3]);
